@@ -72,6 +72,7 @@ statement; distinct = distinct hash of (kind, program, sources, environment or s
             "probe.b.failed_step_then_success",
             "probe.b.tree_at_recycled_address",
             "probe.b.other_file_on_same_thread",
+            "probe.b.rejected_load_in_history",
             "probe.b.globals_vary_between_steps",
             "probe.c.switch_inside_execution",
             "probe.c.cancel_other",
@@ -458,6 +459,9 @@ pub enum Step {
     Reload,
     /// load another file (a structural twin), execute it on the same thread, drop it
     OtherFile { variant: usize, tree: usize, lazy: bool },
+    /// try to load a text that the loader rejects (kind 0: parse error in a later stanza,
+    /// 1: check error, 2: query error); the rejection must leave nothing behind
+    LoadBroken { kind: usize },
 }
 
 fn step_json(s: &Step) -> J {
@@ -466,6 +470,7 @@ fn step_json(s: &Step) -> J {
         Step::Reparse { tree } => json!({"op": "reparse", "tree": tree}),
         Step::Reload => json!({"op": "reload"}),
         Step::OtherFile { variant, tree, lazy } => json!({"op": "other-file", "variant": variant, "tree": tree, "lazy": lazy}),
+        Step::LoadBroken { kind } => json!({"op": "load-broken", "kind": kind}),
     }
 }
 
@@ -478,6 +483,7 @@ fn step_from_json(j: &J) -> Step {
             gv: j["globals_variant"].as_u64().unwrap_or(0) as usize,
         },
         "reparse" => Step::Reparse { tree: j["tree"].as_u64().unwrap_or(0) as usize },
+        "load-broken" => Step::LoadBroken { kind: j["kind"].as_u64().unwrap_or(0) as usize },
         "other-file" => Step::OtherFile {
             variant: j["variant"].as_u64().unwrap_or(0) as usize,
             tree: j["tree"].as_u64().unwrap_or(0) as usize,
@@ -490,9 +496,10 @@ fn step_from_json(j: &J) -> Step {
 fn gen_steps(r: &mut Rng, ntrees: usize, nvariants: usize, nglobs: usize, max: usize) -> Vec<Step> {
     let n = r.range(2, max);
     (0..n)
-        .map(|_| match r.below(12) {
+        .map(|_| match r.below(14) {
             0 | 1 => Step::Reparse { tree: r.below(ntrees) },
             2 => Step::Reload,
+            12 | 13 => Step::LoadBroken { kind: r.below(3) },
             10 | 11 if nvariants > 0 => Step::OtherFile { variant: r.below(nvariants), tree: r.below(ntrees), lazy: r.chance(1, 2) },
             _ => Step::Exec {
                 tree: r.below(ntrees),
@@ -511,10 +518,21 @@ struct BStats {
     failed_then_ok: u64,
     recycled: u64,
     other_files: u64,
+    broken_loads: u64,
     globals_varied: bool,
     statements: bool,
     transcript: u64,
     discarded: bool,
+}
+
+/// A text the loader rejects, built from the run's own program so that the stanzas before the
+/// fault are read and accepted first.
+fn broken_text(text: &str, kind: usize) -> String {
+    match kind {
+        0 => format!("{}\n(identifier) @zz\n{{\n  let = 1\n}}\n", text),
+        1 => format!("{}\n(identifier) @zz\n{{\n  node n\n  node n\n}}\n", text),
+        _ => format!("{}\n(identifier @zz\n{{\n  node n\n}}\n", text),
+    }
 }
 
 fn isolated(inp: &Inputs, tree: usize, lazy: bool, cancel_at: Option<u64>, gv: usize) -> Result<LoadExec, String> {
@@ -557,6 +575,9 @@ fn check_b(inp: &Inputs, steps: &[Step], env: &Env) -> Result<(BStats, Option<Fo
             Err(_) => return (st, None),
         };
         let ast0 = canon::cast(&file);
+        // another caller's function table (an override and an extra function), built first and
+        // kept alive for the whole history: it must not leak into ours
+        let _theirs = if steps2.len() % 2 == 0 { Some(simrun::functions_of_another_caller()) } else { None };
         let fns = simrun::functions();
         // one caller-side variable set per supply variant, all kept for the whole history
         let all_vars: Vec<tree_sitter_graph::Variables> = inp.alt_globs.iter().map(|g| simrun::make_variables(g, &[])).collect();
@@ -591,6 +612,13 @@ fn check_b(inp: &Inputs, steps: &[Step], env: &Env) -> Result<(BStats, Option<Fo
                         Err(e) => {
                             return (st, Some(Found { class: "load-result-differs", detail: format!("step {}: re-loading the text failed: {}", i, e) }));
                         }
+                    }
+                }
+                Step::LoadBroken { kind } => {
+                    st.broken_loads += 1;
+                    if simrun::load(&broken_text(&inp.text, *kind)).is_ok() {
+                        // not a verdict of this check (C06/C07 territory); just not a fault then
+                        st.broken_loads -= 1;
                     }
                 }
                 Step::OtherFile { variant, tree, lazy } => {
@@ -817,6 +845,7 @@ fn check_c(inp: &Inputs, plan: &Plan, env: &Env) -> Result<(CStats, Option<Found
         let inp = inp_a;
         let file = simrun::load(&inp.text).map_err(|e| format!("load: {}", e))?;
         let ast0 = canon::cast(&file);
+        let _theirs = if plan_a.workers.len() % 2 == 0 { Some(simrun::functions_of_another_caller()) } else { None };
         let fns = simrun::functions();
         let sched = Sched::new(plan_a.workers.len(), plan_a.sched_seed, plan_a.strategy, est);
         let results: Vec<Result<WorkerOut, String>> = std::thread::scope(|sc| {
@@ -1109,9 +1138,13 @@ pub fn run_shard(ctx: &ShardCtx, rep: &mut Report) {
     let mut reservoir: Vec<(u64, String, Result<String, String>)> = Vec::new();
     let mut my_runs = 0u64;
     for i in 0..total {
+        if ctx.past_end(i) {
+            break;
+        }
         if !ctx.mine(i) {
             continue;
         }
+        rep.current_run = i;
         let seed = ctx.run_seed(i);
         let mut r = Rng::sub(seed, "plan");
         let sub = match r.below(8) {
@@ -1244,6 +1277,7 @@ pub fn run_shard(ctx: &ShardCtx, rep: &mut Report) {
                         rep.add("probe.b.failed_step_then_success", st.failed_then_ok);
                         rep.add("probe.b.tree_at_recycled_address", st.recycled);
                         rep.add("probe.b.other_file_on_same_thread", st.other_files);
+                        rep.add("probe.b.rejected_load_in_history", st.broken_loads);
                         if st.globals_varied {
                             rep.count("probe.b.globals_vary_between_steps");
                         }
